@@ -315,28 +315,98 @@ def check_identifier_form(ctx):
     from .c04 import memo_role
 
     f, if0 = _find_in_check(ctx, lambda n: isinstance(n, ast.If) and norm(n.test).endswith(".structure.isidentifier()"), "identifier-form branch")
-    sname = norm(if0.test)[: -len(".isidentifier()")]
+    negated = isinstance(if0.test, ast.UnaryOp) and isinstance(if0.test.op, ast.Not)
+    sname = norm(if0.test.operand if negated else if0.test)[: -len(".isidentifier()")]
+    ident_stmts = if0.body
+    if negated:
+        if if0.orelse:
+            ident_stmts = if0.orelse
+        else:
+            # `if not <name>.isidentifier(): return <composite>` ... the identifier form is what follows
+            need(if0.body and isinstance(if0.body[-1], (ast.Return, ast.Raise)), "C09.3: the composite side of the identifier test does not end in return")
+            blocks = [getattr(n, fld) for n in ast.walk(f.node) for fld in ("body", "orelse", "finalbody") if isinstance(getattr(n, fld, None), list)]
+            blk = next((b_ for b_ in blocks if any(x is if0 for x in b_)), None)
+            need(blk is not None, "C09.3: the block holding the identifier test was not found")
+            ident_stmts = blk[[i for i, x in enumerate(blk) if x is if0][0] + 1:]
+            need(ident_stmts, "C09.3: nothing follows the identifier test")
     memos = [p_ for p_ in f.params if memo_role(p_) == "pytree"]
     need(memos, f"C09.3: {f.qualname} has no structure-memo parameter")
     memo = memos[0]
-    ifs = [if0]
-    body = ifs[0].body
-    tries = [x for x in body if isinstance(x, ast.Try)]
-    if len(tries) != 1:
-        ctx.bad("C09.3", f, ifs[0], "the identifier form is not 'look up; bind if absent; else compare'", construct="identifier form shape")
-        return
-    tr = tries[0]
-    look = [a for a in tr.body if isinstance(a, ast.Assign) and isinstance(a.value, ast.Subscript) and norm(a.value.value) == memo and norm(a.value.slice) == sname]
-    hk = [h for h in tr.handlers if h.type is not None and "KeyError" in norm(h.type)]
-    stores = [a for h in hk for a in h.body if isinstance(a, ast.Assign) and norm(a.targets[0]) == f"{memo}[{sname}]" and norm(a.value) == "structure"]
-    cmp = [x for x in tr.orelse if isinstance(x, ast.If)]
-    ok = look and stores and len(cmp) == 1 and isinstance(cmp[0].test, ast.Compare) and isinstance(cmp[0].test.ops[0], ast.NotEq) \
-        and {norm(cmp[0].test.left), norm(cmp[0].test.comparators[0])} == {norm(look[0].targets[0]), "structure"} \
-        and any(isinstance(x, ast.Return) and isinstance(x.value, ast.Constant) and x.value.value is False for x in cmp[0].body)
-    if ok:
+    # the branch is walked on the CFG for {name absent, name bound & same structure, name bound & different
+    # structure}: absent -> the tree's structure is stored under the name and the check goes on; same -> goes
+    # on without storing; different -> `return False`.  Insensitive to try/except-else vs `in` tests vs guard
+    # clauses.
+    from ..absim import eval_bool, simulate
+    from ..typestate import NoReturn
+
+    g = NoReturn(ctx.model).cfg(f)
+    inside = set()
+    region_ids = {id(x) for st in ident_stmts for x in ast.walk(st)}
+    for n in g.live_nodes():
+        if n.kind in ("exit", "exit_e", "exit_b", "entry", "falloff"):
+            continue
+        if n.ast is None or id(n.ast) in region_ids:
+            inside.add(n.id)  # statements, tests, handlers of the branch (and the ast-less unwind nodes between them)
+    first = ident_stmts[0]
+    while isinstance(first, (ast.Try, ast.With)):  # the entry of a try / with statement is its first inner statement
+        first = first.body[0]
+    starts = [n for n in g.nodes_of_stmt(first) if n.kind not in ("dispatch", "handler", "finally", "unwind")]
+    if isinstance(first, (ast.If, ast.While)):
+        starts = [n for n in g.live_nodes() if n.ast is first.test] or starts
+    need(starts and inside, "C09.3: the identifier-form branch is not in the CFG")
+    lookvars = {norm(a.targets[0]) for a in ast.walk(ast.Module(body=ident_stmts, type_ignores=[])) if isinstance(a, ast.Assign)
+                and isinstance(a.value, ast.Subscript) and norm(a.value.value) == memo and norm(a.value.slice) == sname}
+    gets = [c for c in ast.walk(ast.Module(body=ident_stmts, type_ignores=[])) if isinstance(c, ast.Call) and isinstance(c.func, ast.Attribute)
+            and c.func.attr == "get" and norm(c.func.value) == memo]
+    if gets:
+        raise AnalysisError(f"C09.3: the structure name is looked up with `{short(gets[0], 50)}`; whether absence is told apart from a falsy value is not interpreted")
+
+    def stop(n):
+        return n.id not in inside or n.kind in ("return", "raise")
+
+    def event_of(n):
+        a_ = n.ast
+        if n.kind == "stmt" and isinstance(a_, ast.Assign) and isinstance(a_.targets[0], ast.Subscript) and norm(a_.targets[0].value) == memo:
+            return f"bind:{norm(a_.targets[0].slice)}={norm(a_.value)}"
+        return None
+
+    verdicts = {}
+    for label, bound, same in (("absent", False, None), ("same", True, True), ("different", True, False)):
+        def atom(e, bound=bound, same=same):
+            if isinstance(e, ast.Compare) and len(e.ops) == 1:
+                l, r_, op = norm(e.left), norm(e.comparators[0]), e.ops[0]
+                if isinstance(op, (ast.In, ast.NotIn)) and r_ == memo and l == sname:
+                    return bound if isinstance(op, ast.In) else not bound
+                if isinstance(op, (ast.Eq, ast.NotEq)) and ({l, r_} & lookvars or f"{memo}[{sname}]" in (l, r_)) and "structure" in (l, r_):
+                    if same is None:
+                        return None
+                    return same if isinstance(op, ast.Eq) else not same
+            return None
+
+        def raise_oracle(n, bound=bound):
+            if n.ast is None or n.kind not in ("stmt", "test", "return"):
+                return None
+            for x in ast.walk(n.ast):
+                if isinstance(x, ast.Subscript) and isinstance(x.ctx, ast.Load) and norm(x.value) == memo and norm(x.slice) == sname and not bound:
+                    return "KeyError"
+            return None
+
+        outs = simulate(g, starts[0], stop, lambda n: eval_bool(n.ast, atom), raise_oracle, event_of)
+        need(outs, "C09.3: the identifier-form branch has no path")
+        res = set()
+        for o in outs:
+            binds = [e for e in o.events if e.startswith("bind:")]
+            rejected = o.end.kind == "return" and isinstance(o.end.ast.value, ast.Constant) and o.end.ast.value.value is False
+            raised = o.end.kind == "raise" or o.end.kind in ("exit_e", "exit_b")
+            res.add(("reject" if rejected else "raise" if raised else "go-on") + ("+bind" if binds else "") + (":wrong-value" if binds and not all(b_ == f"bind:{sname}=structure" for b_ in binds) else ""))
+        verdicts[label] = res
+    want = {"absent": {"go-on+bind"}, "same": {"go-on"}, "different": {"reject"}}
+    if verdicts == want:
         ctx.ok("C09.3", f.qualname, "identifier form: bind the tree's structure if the name is absent, else reject iff the structures differ")
     else:
-        ctx.bad("C09.3", f, tr, "the identifier form does not bind the structure when the name is absent and reject exactly when a bound structure differs")
+        bad = {k: sorted(v) for k, v in verdicts.items() if v != want[k]}
+        ctx.bad("C09.3", f, if0, f"the identifier form does not bind the structure when the name is absent and reject exactly when a bound structure differs: {bad} "
+                f"(expected absent -> bind and go on, same -> go on, different -> reject)", construct=f"identifier form: {bad}")
 
 
 # ------------------------------------------------------------------------ C09.4
